@@ -328,6 +328,83 @@ def run_reload(ctx, cases):
     ctx.sample({"history": cases[0]["ops"][:6], "recorded": events[:3]})
 
 
+def check_c06(ctx):
+    q = ctx.tier == "quick"
+    mc = {"FAILNUM": 2, "SUCCNUM": 2, "T3": "", "MAXFAILS": 5, "MAXPROBES": 5} if q else \
+         {"FAILNUM": 2, "SUCCNUM": 2, "T3": ", 3", "MAXFAILS": 6, "MAXPROBES": 6}
+    ctx.cov["constants"]["MC_Health"] = mc
+    ctx.tlc_must_pass("Balancer", "Health", "MC_Health.cfg", defines=mc, timeout=2400)
+    cases, seen = [], set()
+    for fn, sn in ((1, 1), (2, 2), (3, 1), (1, 3)) if q else ((1, 1), (2, 2), (3, 1), (1, 3), (2, 3), (3, 3)):
+        r = ctx.tlc("Balancer", "GenHealth", "Gen_Health.cfg", mode="sim", sim_num=12 if q else 120, sim_depth=150,
+                    defines={"FAILNUM": fn, "SUCCNUM": sn, "OPS": 24}, timeout=900, count=False)
+        if not r.ok:
+            raise vlib.MachineryError("GenHealth failed: %s %s" % (r.error or r.violation, r.out[-400:]))
+        for c in r.cases:
+            k = json.dumps(c, sort_keys=True)
+            if k not in seen:
+                seen.add(k)
+                cases.append(c)
+    # seeded scripts with late release (the simulator tends to release early)
+    import random
+    rnd = random.Random(ctx.seed * 31 + 6)
+    for _ in range(30 if q else 300):
+        fn, sn = rnd.randint(1, 3), rnd.randint(1, 3)
+        ops = []
+        for _ in range(rnd.randint(10, 40)):
+            x = rnd.random()
+            if x < 0.45:
+                ops.append({"op": "fail", "t": rnd.randint(1, 3)})
+            elif x < 0.6:
+                ops.append({"op": "succ", "t": rnd.randint(1, 3)})
+            elif x < 0.97:
+                ops.append({"op": "probe", "ok": rnd.random() < 0.6})
+            else:
+                ops.append({"op": "release"})
+        cases.append({"failNum": fn, "succNum": sn, "ops": ops})
+    run_health(ctx, cases)
+    ctx.cov["rule"] = ("cases = environment scripts (which request thread reports failure/success, probe outcomes via a "
+                       "loopback listener that is opened/closed, release) printed by TLC simulation of Health.tla plus seeded "
+                       "ones; played with real goroutines against backend.BfeBackend with real health-check goroutines "
+                       "(8 ms interval); events recorded by the verif hooks under the backend lock and validated by TLC "
+                       "(TraceHealth) against Layer P. distinct = distinct scripts containing at least one failure report.")
+    ctx.assumptions.append("health checks of type tcp against 127.0.0.1; real time: 8 ms check interval, quiescence wait up to 2 s")
+
+
+def run_health(ctx, cases):
+    for i, c in enumerate(cases):
+        c["id"] = i + 1
+    res = ctx.harness("balancer", ["health-run"], cases=cases, timeout=1500, race=True)
+    if "DATA RACE" in (ctx.last_stderr or ""):
+        ctx.report("race/health", ctx.last_stderr[-1500:], case=None, harness="balancer", cmd="health-run")
+    events = [x for x in res if "ev" in x]
+    summ = [x for x in res if x.get("summary")]
+    crash = [x for x in res if "_harness_exit" in x]
+    if not summ or summ[0]["cases"] != len(cases) or (crash and "DATA RACE" not in (ctx.last_stderr or "")):
+        raise vlib.MachineryError("health-run died: %s" % res[-2:])
+    trace = "".join(json.dumps(e, separators=(",", ":")) + "\n" for e in events)
+    r = ctx.tlc("Balancer", "TraceHealth", "TraceHealth.cfg", mode="trace", timeout=1500,
+                extra_files={"trace.ndjson": trace}, count=False)
+    rep = [c for c in r.cases if c.get("done")]
+    if not r.ok or not rep or rep[0]["consumed"] != len(events):
+        raise vlib.MachineryError("TraceHealth did not complete: %s %s" % (r.error or r.violation, r.out[-800:]))
+    by_id = {c["id"]: c for c in cases}
+    for b in rep[0]["bad"]:
+        c = by_id[b["cid"]]
+        lo = max(0, b["l"] - 8)
+        ctx.report("%s/health" % b["why"], "events before the rejected one: %s" % str(events[lo:b["l"]])[:1500],
+                   case=c, harness="balancer", cmd="health-run")
+    ctx.traces(len(cases))
+    nchk = sum(1 for e in events if e["ev"] == "check_start")
+    nup = sum(1 for e in events if e["ev"] == "set_avail" and e.get("avail"))
+    ctx.cov["health_events"] = {"events": len(events), "checkers_started": nchk, "restored": nup}
+    if nchk == 0 or nup == 0:
+        raise vlib.MachineryError("health driver never exercised a checker/restore (checkers=%d, restores=%d)" % (nchk, nup))
+    for c in cases:
+        ctx.count({"f": c["failNum"], "s": c["succNum"], "ops": c["ops"]}, nontrivial=any(o["op"] == "fail" for o in c["ops"]))
+    ctx.sample({"script": cases[0], "recorded": [e for e in events if e["cid"] == cases[0]["id"]][:10]})
+
+
 def check_c04(ctx):
     check_all(ctx, {"ReplyOK", "unknown-backend"}, "C04")
 
@@ -336,10 +413,17 @@ def check_c05(ctx):
     check_all(ctx, {"panic", "hang"}, "C05")
 
 
-PROPS = {"C09": check_c09, "C02": check_c02, "C01": check_c01, "C03": check_c03, "C04": check_c04, "C05": check_c05}
+PROPS = {"C06": check_c06, "C09": check_c09, "C02": check_c02, "C01": check_c01, "C03": check_c03, "C04": check_c04, "C05": check_c05}
 
 
 def replay(ctx, pid, rep):
+    if rep.get("cmd") == "health-run":
+        rc = 0
+        for _ in range(5):           # concurrent: repeat the script a few times
+            run_health(ctx, [dict(rep["case"])])
+        rc = ctx.finish()
+        print("replay: %s" % ("violation reproduced" if rc == 1 else "no violation on the current tree (5 runs)"))
+        return rc
     if rep.get("cmd") == "reload-run":
         run_reload(ctx, [rep["case"]])
         rc = ctx.finish()
